@@ -235,7 +235,33 @@ fn project_object(text: &str) -> (Vec<String>, Vec<String>, Vec<Value>) {
 }
 
 fn observe_json_wrappers(rec: &mut Recorder, rng: &mut Prng) {
-    let v: Value = match rng.below(6) {
+    let v: Value = match rng.below(13) {
+        // brackets and braces inside strings (balanced or not), as JSONPath / regular expressions / templates have them
+        6 => {
+            let n = 1 + rng.below(40);
+            let opens: String = (0..n).map(|i| if i % 3 == 0 { '{' } else { '[' }).collect();
+            json!({"kid": format!("a{opens}?(@.b"), "re": format!("{}x{}", "[".repeat(n), "]".repeat(n / 2)), "t": "}}]]"})
+        }
+        // genuinely nested values, 1..100 levels (serde_json's own limit is 128)
+        7 => {
+            let depth = 1 + rng.below(100);
+            let mut v = json!("leaf");
+            for i in 0..depth {
+                v = if i % 2 == 0 { json!([v]) } else { json!({"k": v}) };
+            }
+            v
+        }
+        // long escape-free runs around plausible buffer sizes, as value and as member name
+        8 => {
+            let n = *rng.pick(&[255usize, 256, 257, 300, 511, 512, 513, 1024, 4095, 4096, 4097, 10000]);
+            json!({"jti": "j".repeat(n), "k".repeat(n / 2 + 1): 1})
+        }
+        // numbers at the edges of what serde_json represents exactly
+        9 => json!([u64::MAX, i64::MIN, 0, -0.0, 1.5e300, 5e-324, 9007199254740993u64]),
+        // member names that need escapes, empty names, duplicates are impossible in Value
+        10 => json!({"": 1, "\"": 2, "\\": 3, "\u{0}": 4, "\n": 5, "é": 6, "😀": 7}),
+        11 => json!([[], {}, [[]], [{}], {"a": []}, "", 0, false]),
+        12 => json!({"exp": "2039-01-01T00:00:00Z", "sub": rand_string(rng), "iat": 17, "nbf": null, "x": {"iss": "nested"}}),
         0 => json!({"a": rand_string(rng), "b": [1, 2.5, null, true], "c": {"d": rand_string(rng)}}),
         1 => json!(rand_string(rng)),
         2 => json!([rand_string(rng), rng.next_u64(), -(rng.below(1000) as i64)]),
